@@ -90,14 +90,14 @@ func scan(r pebble.Reader, backward bool) ([]hx.KV, error) {
 	var out []hx.KV
 	if backward {
 		for v := it.Last(); v; v = it.Prev() {
-			out = append(out, hx.KV{K: string(it.Key()), V: string(it.Value())})
+			out = append(out, hx.KV{K: string(it.Key()), V: hx.Val(it.Value())})
 		}
 		for i, j := 0, len(out)-1; i < j; i, j = i+1, j-1 {
 			out[i], out[j] = out[j], out[i]
 		}
 	} else {
 		for v := it.First(); v; v = it.Next() {
-			out = append(out, hx.KV{K: string(it.Key()), V: string(it.Value())})
+			out = append(out, hx.KV{K: string(it.Key()), V: hx.Val(it.Value())})
 		}
 	}
 	if err := it.Error(); err != nil {
@@ -124,7 +124,7 @@ func scanAll(r pebble.Reader) ([]hx.KV, error) {
 			}
 		}
 		if hp {
-			out = append(out, hx.KV{K: string(it.Key()), V: string(it.Value())})
+			out = append(out, hx.KV{K: string(it.Key()), V: hx.Val(it.Value())})
 		}
 	}
 	if err := it.Error(); err != nil {
@@ -176,7 +176,8 @@ func (s *h) Threads() []func() {
 				b.RangeKeySet([]byte("a"), []byte("z"), []byte("@5"), []byte(fmt.Sprintf("b%d", i)), nil)
 			}
 			if bs.big {
-				b.LogData(make([]byte, int(s.x.Opts.MemTableSize)/2+1024), nil)
+				// a real big value: LogData does not count towards the large-batch threshold
+				b.Set([]byte(hx.PadKey), []byte(strings.Repeat("p", int(s.x.Opts.MemTableSize)/2+1024)), nil)
 			}
 			o := pebble.NoSync
 			if bs.sync {
@@ -204,6 +205,36 @@ func (s *h) Threads() []func() {
 			case "iterkr-fwd":
 				r, err := scanAll(d)
 				o.reads, o.err = append(o.reads, r), err
+			case "iter-rescan":
+				// C04: ONE iterator (and a clone of it) re-driven while commits go on must keep showing
+				// the state of its creation
+				it, err := d.NewIter(nil)
+				if err != nil {
+					o.err = err
+					break
+				}
+				rescan := func(it *pebble.Iterator) []hx.KV {
+					var out []hx.KV
+					for v := it.First(); v; v = it.Next() {
+						out = append(out, hx.KV{K: string(it.Key()), V: hx.Val(it.Value())})
+					}
+					return out
+				}
+				o.reads = append(o.reads, rescan(it))
+				o.reads = append(o.reads, rescan(it))
+				cl, err := it.Clone(pebble.CloneOptions{})
+				if err == nil {
+					o.reads = append(o.reads, rescan(cl))
+					o.reads = append(o.reads, rescan(it))
+					err = cl.Close()
+				}
+				if err == nil {
+					err = it.Error()
+				}
+				o.err = err
+				if e := it.Close(); e != nil && o.err == nil {
+					o.err = e
+				}
 			case "iter-fwd-twice":
 				r, err := scan(d, false)
 				o.reads, o.err = append(o.reads, r), err
@@ -228,7 +259,7 @@ func (s *h) Threads() []func() {
 						o.err = err
 						break
 					}
-					r = append(r, hx.KV{K: k, V: string(v)})
+					r = append(r, hx.KV{K: k, V: hx.Val(v)})
 					c.Close()
 				}
 				o.reads = append(o.reads, r)
@@ -314,6 +345,9 @@ func (s *h) allowed() []st {
 			for _, k := range s.sc.batches[i].del {
 				delete(nx, k)
 			}
+			if s.sc.batches[i].big {
+				nx[hx.PadKey] = "PAD"
+			}
 			if s.sc.batches[i].rk {
 				nx[rkName] = fmt.Sprintf("b%d", i)
 			}
@@ -385,6 +419,14 @@ func judge(hh vsched.Harness, x *vsched.Exec) (string, string, string) {
 			}
 			outcome = append(outcome, "get["+sb.String()+"]")
 			continue
+		}
+		if o.kind == "iter-rescan" {
+			for ri := 1; ri < len(o.reads); ri++ {
+				if render(o.reads[ri]) != render(o.reads[0]) {
+					return strings.Join(outcome, " "), "iterator-view-changed", fmt.Sprintf("an open iterator (or its clone) showed {%s} at its first scan and {%s} at re-scan %d while commits were running", render(o.reads[0]), render(o.reads[ri]), ri)
+				}
+			}
+			o.reads = o.reads[:1]
 		}
 		prevHas := uint(0)
 		for ri, r := range o.reads {
@@ -686,6 +728,9 @@ func pairScenarios() []d1x.Scenario {
 }
 
 func scenarios1(prop string) []d1x.Scenario {
+	if len(prop) > 3 {
+		prop = prop[:3] // "C04-conc" run on its own
+	}
 	if prop == "C42" {
 		return pairScenarios()
 	}
@@ -705,6 +750,12 @@ func scenarios1(prop string) []d1x.Scenario {
 			mk(scen{name: "flushable-big-batch", cfg: small, batches: []batchSpec{{keys: []string{"a", "c"}, big: true}, B("b", "d")}, readers: []string{"iter-fwd"}}, 0, 1, 1),
 			mk(scen{name: "point+rangekey-batch-iterkr", cfg: nowal, pre: []string{"0"}, batches: []batchSpec{{keys: []string{"p"}, rk: true}, B("q")}, readers: []string{"iterkr-fwd"}}, 1, 2, 2),
 			mk(scen{name: "set+delete-batches", cfg: nowal, preL0: []string{"a", "b"}, batches: []batchSpec{{keys: []string{"c"}, del: []string{"a"}}, {keys: []string{"d"}, del: []string{"b"}}}, readers: []string{"snap-fwd"}}, 1, 2, 1),
+		)
+	} else if prop == "C04" {
+		sc = append(sc,
+			mk(scen{name: "iter-rescan-2x2-disjoint", cfg: nowal, pre: []string{"0", "z"}, batches: []batchSpec{B("a", "c"), B("b", "d")}, readers: []string{"iter-rescan"}}, 1, 2, 2),
+			mk(scen{name: "iter-rescan-3key-batch", cfg: nowal, pre: []string{"0"}, batches: []batchSpec{B("a", "m", "y")}, readers: []string{"iter-rescan"}}, 1, 2, 2),
+			mk(scen{name: "iter-rescan-flushable", cfg: small, batches: []batchSpec{{keys: []string{"a", "c"}, big: true}}, readers: []string{"iter-rescan"}}, 0, 1, 1),
 		)
 	} else { // C07
 		sc = append(sc,
